@@ -309,3 +309,46 @@ mod tests {
         );
     }
 }
+
+#[cfg(anysystem_verif)]
+impl PendingEvents {
+    /// Verification hook: `push_with_fixed_id`.
+    pub fn verif_push_with_fixed_id(&mut self, event: McEvent, id: McEventId) -> McEventId {
+        self.push_with_fixed_id(event, id)
+    }
+
+    /// Verification hook: `available_events`.
+    pub fn verif_available_events(&self, mode: &EventOrderingMode) -> BTreeSet<McEventId> {
+        self.available_events(mode)
+    }
+
+    /// Verification hook: `cancel_proc_events`.
+    pub fn verif_cancel_proc_events(&mut self, proc: &String) -> Vec<McEvent> {
+        self.cancel_proc_events(proc)
+    }
+
+    /// Verification hook: the raw set of available (unblocked) event ids.
+    pub fn verif_raw_available(&self) -> Vec<McEventId> {
+        self.available_events.iter().cloned().collect()
+    }
+
+    /// Verification hook: all stored events with their ids.
+    pub fn verif_events(&self) -> Vec<(McEventId, McEvent)> {
+        self.events.iter().map(|(id, e)| (*id, e.clone())).collect()
+    }
+
+    /// Verification hook: the timer mapping.
+    pub fn verif_timer_mapping(&self) -> Vec<((String, String), usize)> {
+        self.timer_mapping.iter().map(|(k, v)| (k.clone(), *v)).collect()
+    }
+
+    /// Verification hook: the id counter.
+    pub fn verif_id_counter(&self) -> McEventId {
+        self.id_counter
+    }
+
+    /// Verification hook: the dependency resolver.
+    pub fn verif_resolver(&self) -> &DependencyResolver {
+        &self.resolver
+    }
+}
